@@ -49,6 +49,8 @@ type Case struct {
 	PL     int    `json:"pl,omitempty"`
 	Grace  uint64 `json:"grace,omitempty"`
 	Univ   int    `json:"univ,omitempty"`
+	Pool   string   `json:"pool,omitempty"`  // dist: pool id (default "p")
+	Names  []string `json:"names,omitempty"` // dist: subscriber id of holder h (default "s<h>"); any bytes
 	Ops    []Op   `json:"ops"`
 	Origin string `json:"origin,omitempty"`
 }
@@ -194,14 +196,34 @@ func (s *hstore) Watch(prefix string, cb func(key string, value []byte, deleted 
 
 // ------------------------------------------------------------------------------------ dist stream
 
-const poolID = "p"
-
-func keyOf(h int) string { return "/allocation/" + poolID + "/" + sub(h) }
+func (c Case) poolID() string {
+	if c.Pool == "" {
+		return "p"
+	}
+	return c.Pool
+}
+func (c Case) name(h int) string {
+	if h < len(c.Names) {
+		return c.Names[h]
+	}
+	return sub(h)
+}
+func (c Case) holderOf(id string) int {
+	for h := 0; h < c.Univ; h++ {
+		if c.name(h) == id {
+			return h
+		}
+	}
+	return 999
+}
+func (c Case) prefix() string    { return "/allocation/" + c.poolID() + "/" }
+func (c Case) keyOf(h int) string { return c.prefix() + c.name(h) }
 
 type recT struct {
-	a  *big.Int
-	pl int
-	ep uint64
+	a   *big.Int
+	pl  int
+	ep  uint64
+	sid string
 }
 
 func parseRec(v []byte) (recT, bool) {
@@ -214,7 +236,7 @@ func parseRec(v []byte) (recT, bool) {
 		return recT{}, false
 	}
 	ones, _ := n.Mask.Size()
-	return recT{intOf(ip), ones, a.Epoch}, true
+	return recT{intOf(ip), ones, a.Epoch, a.SubscriberID}, true
 }
 
 func recCoq(r recT) string {
@@ -241,7 +263,7 @@ func (d *distRun) newAlloc() {
 		mode = allocator.PoolModeLease
 	}
 	da, err := allocator.NewDistributedAllocator(allocator.DistributedConfig{
-		PoolID: poolID, BaseNetwork: cidr(d.c.Base, d.c.Bits, d.c.PPL), PrefixLen: d.c.PL, Mode: mode,
+		PoolID: d.c.poolID(), BaseNetwork: cidr(d.c.Base, d.c.Bits, d.c.PPL), PrefixLen: d.c.PL, Mode: mode,
 		EpochGrace: int(d.c.Grace)}, d.st)
 	if err != nil {
 		panic(err)
@@ -252,7 +274,7 @@ func (d *distRun) newAlloc() {
 func (d *distRun) snapshot(ret string) string {
 	var mem []string
 	for h := 0; h < d.c.Univ; h++ {
-		if p, ok := d.da.Get(sub(h)); ok && p != nil {
+		if p, ok := d.da.Get(d.c.name(h)); ok && p != nil {
 			mem = append(mem, fmt.Sprintf("(%d, %s)", h, intOf(p.IP).String()))
 		}
 	}
@@ -262,7 +284,7 @@ func (d *distRun) snapshot(ret string) string {
 	}
 	var recs []sr
 	for k, v := range d.st.data {
-		h := subNum(k[len("/allocation/"+poolID+"/"):])
+		h := d.c.holderOf(k[len(d.c.prefix()):])
 		if r, ok := parseRec(v); ok {
 			recs = append(recs, sr{h, fmt.Sprintf("(%d, (%s, %d, %d))", h, r.a.String(), r.pl, r.ep)})
 		} else {
@@ -282,19 +304,18 @@ func (d *distRun) emit(op, ret string) {
 }
 
 func (d *distRun) deliver(n note) {
-	h := subNum(n.key[len("/allocation/"+poolID+"/"):])
 	arg := "None"
 	if !n.deleted {
 		r, ok := parseRec(n.value)
 		if !ok {
 			return
 		}
-		arg = "(Some " + recCoq(r) + ")"
+		arg = "(Some (" + vh.Str(r.sid) + ", " + recCoq(r) + "))"
 	}
 	if d.st.cb != nil {
 		d.st.cb(n.key, n.value, n.deleted)
 	}
-	d.emit(fmt.Sprintf("DEcho %d %s", h, arg), "ROk")
+	d.emit(fmt.Sprintf("WEcho %s %s", vh.Str(n.key), arg), "ROk")
 	d.tags["op:echo"] = true
 }
 
@@ -319,7 +340,7 @@ func (d *distRun) freeUnits(h int) []*big.Int {
 	}
 	taken := map[string]bool{}
 	for k, v := range d.st.data {
-		if k == keyOf(h) {
+		if k == d.c.keyOf(h) {
 			continue
 		}
 		if r, ok := parseRec(v); ok {
@@ -330,7 +351,7 @@ func (d *distRun) freeUnits(h int) []*big.Int {
 		if x == h {
 			continue
 		}
-		if p, ok := d.da.Get(sub(x)); ok && p != nil {
+		if p, ok := d.da.Get(d.c.name(x)); ok && p != nil {
 			taken[intOf(p.IP).String()] = true
 		}
 	}
@@ -352,6 +373,19 @@ func (d *distRun) freeUnits(h int) []*big.Int {
 	return out
 }
 
+// another node wrote the record of holder h; the watch fires with the store key
+func (d *distRun) remotePut(h int, r recT) {
+	c := d.c
+	key := c.keyOf(h)
+	val, _ := json.Marshal(&allocator.DistributedAllocation{PoolID: c.poolID(), SubscriberID: c.name(h),
+		Prefix: fmt.Sprintf("%s/%d", ipOf(r.a, c.Bits).String(), r.pl), Epoch: r.ep})
+	d.st.data[key] = val
+	if d.st.cb != nil {
+		d.st.cb(key, val, false)
+	}
+	d.emit(fmt.Sprintf("WRemotePut %s %s %s %d %d", vh.Str(key), vh.Str(c.name(h)), r.a.String(), r.pl, r.ep), "ROk")
+}
+
 func (d *distRun) clearFlags() { d.st.failPut, d.st.failDel, d.st.failGet = false, false, false }
 
 func runDist(c Case) vh.Case {
@@ -370,9 +404,9 @@ func runDist(c Case) vh.Case {
 			var p *net.IPNet
 			var err error
 			if o.Mac {
-				p, err = d.da.AllocateWithMAC(bctx, sub(o.H), net.HardwareAddr{2, 0, 0, 0, 0, byte(o.H)})
+				p, err = d.da.AllocateWithMAC(bctx, c.name(o.H), net.HardwareAddr{2, 0, 0, 0, 0, byte(o.H)})
 			} else {
-				p, err = d.da.Allocate(bctx, sub(o.H))
+				p, err = d.da.Allocate(bctx, c.name(o.H))
 			}
 			used := o.Fail && !d.st.failPut
 			d.clearFlags()
@@ -385,11 +419,11 @@ func runDist(c Case) vh.Case {
 			if used {
 				d.tags["fail:put"] = true
 			}
-			d.emit(fmt.Sprintf("DAlloc %d %s %s", o.H, vh.Bool(o.Mac), vh.Bool(o.Fail)), ret)
+			d.emit(fmt.Sprintf("WLocal (DAlloc %d %s %s)", o.H, vh.Bool(o.Mac), vh.Bool(o.Fail)), ret)
 			d.flushSync()
 		case "rel":
 			d.st.failDel = o.Fail
-			err := d.da.Release(bctx, sub(o.H))
+			err := d.da.Release(bctx, c.name(o.H))
 			if o.Fail && !d.st.failDel {
 				d.tags["fail:del"] = true
 			}
@@ -398,43 +432,43 @@ func runDist(c Case) vh.Case {
 			if err != nil {
 				ret = fmt.Sprintf("RErr %d", errClass(err))
 			}
-			d.emit(fmt.Sprintf("DRelease %d %s", o.H, vh.Bool(o.Fail)), ret)
+			d.emit(fmt.Sprintf("WLocal (DRelease %d %s)", o.H, vh.Bool(o.Fail)), ret)
 			d.flushSync()
 		case "renew":
 			d.st.failGet, d.st.failPut = o.FailG, o.Fail
-			err := d.da.Renew(bctx, sub(o.H))
+			err := d.da.Renew(bctx, c.name(o.H))
 			d.clearFlags()
 			ret := "ROk"
 			if err != nil {
 				ret = fmt.Sprintf("RErr %d", errClass(err))
 			}
-			d.emit(fmt.Sprintf("DRenew %d %s %s", o.H, vh.Bool(o.FailG), vh.Bool(o.Fail)), ret)
+			d.emit(fmt.Sprintf("WLocal (DRenew %d %s %s)", o.H, vh.Bool(o.FailG), vh.Bool(o.Fail)), ret)
 			d.flushSync()
 		case "get":
 			ret := "RNone"
-			if p, ok := d.da.Get(sub(o.H)); ok && p != nil {
+			if p, ok := d.da.Get(c.name(o.H)); ok && p != nil {
 				ret = "RUnit " + intOf(p.IP).String()
 			}
-			d.emit(fmt.Sprintf("DGet %d", o.H), ret)
+			d.emit(fmt.Sprintf("WLocal (DGet %d)", o.H), ret)
 		case "getby":
 			bits := c.Bits
 			pfx := &net.IPNet{IP: ipOf(bigOf(o.A), bits), Mask: net.CIDRMask(o.PL, bits)}
 			ret := "RNone"
 			if s, ok := d.da.GetByPrefix(pfx); ok {
-				ret = fmt.Sprintf("RHolder %d", subNum(s))
+				ret = fmt.Sprintf("RHolder %d", c.holderOf(s))
 			}
-			d.emit(fmt.Sprintf("DGetBy %s %d", bigOf(o.A).String(), o.PL), ret)
+			d.emit(fmt.Sprintf("WLocal (DGetBy %s %d)", bigOf(o.A).String(), o.PL), ret)
 		case "stats":
 			s := d.da.Stats()
-			d.emit("DStats", statsCoq("RStats", uint64(s.Allocated), uint64(s.Total), s.Utilization))
+			d.emit("WLocal DStats", statsCoq("RStats", uint64(s.Allocated), uint64(s.Total), s.Utilization))
 		case "adv":
 			e := d.da.AdvanceEpoch()
-			d.emit("DAdvance", fmt.Sprintf("REpoch %d", e))
+			d.emit("WLocal DAdvance", fmt.Sprintf("REpoch %d", e))
 		case "restart":
 			var ord []string
 			d.st.order = nil
 			for _, h := range o.Ord {
-				d.st.order = append(d.st.order, keyOf(h))
+				d.st.order = append(d.st.order, c.keyOf(h))
 				ord = append(ord, fmt.Sprintf("%d", h))
 			}
 			d.st.pending = nil // notifications addressed to the stopped process are gone
@@ -444,20 +478,13 @@ func runDist(c Case) vh.Case {
 			if err := d.da.Start(d.ctx); err != nil {
 				ret = "RErr 6"
 			}
-			d.emit("DRestart "+vh.List(ord), ret)
+			d.emit("WLocal (DRestart "+vh.List(ord)+")", ret)
 		case "rput":
-			r := recT{bigOf(o.A), o.PL, o.Ep}
-			val, _ := json.Marshal(&allocator.DistributedAllocation{PoolID: poolID, SubscriberID: sub(o.H),
-				Prefix: fmt.Sprintf("%s/%d", ipOf(r.a, c.Bits).String(), o.PL), Epoch: o.Ep})
-			d.st.data[keyOf(o.H)] = val
-			if d.st.cb != nil {
-				d.st.cb(keyOf(o.H), val, false)
-			}
-			d.emit(fmt.Sprintf("DRemotePut %d %s %d %d", o.H, r.a.String(), o.PL, o.Ep), "ROk")
+			d.remotePut(o.H, recT{bigOf(o.A), o.PL, o.Ep, c.name(o.H)})
 		case "rputf", "rputown": // guarded remote puts: the address is chosen at run time
 			var r recT
 			if o.K == "rputown" {
-				v, ok := d.st.data[keyOf(o.H)]
+				v, ok := d.st.data[c.keyOf(o.H)]
 				if !ok {
 					continue
 				}
@@ -465,7 +492,7 @@ func runDist(c Case) vh.Case {
 				if !ok {
 					continue
 				}
-				r = recT{pr.a, pr.pl, o.Ep}
+				r = recT{pr.a, pr.pl, o.Ep, c.name(o.H)}
 			} else {
 				free := d.freeUnits(o.H)
 				if len(free) == 0 {
@@ -475,21 +502,15 @@ func runDist(c Case) vh.Case {
 				if c.Lease {
 					pl = 32
 				}
-				r = recT{free[o.Idx%len(free)], pl, o.Ep}
+				r = recT{free[o.Idx%len(free)], pl, o.Ep, c.name(o.H)}
 			}
-			val, _ := json.Marshal(&allocator.DistributedAllocation{PoolID: poolID, SubscriberID: sub(o.H),
-				Prefix: fmt.Sprintf("%s/%d", ipOf(r.a, c.Bits).String(), r.pl), Epoch: r.ep})
-			d.st.data[keyOf(o.H)] = val
-			if d.st.cb != nil {
-				d.st.cb(keyOf(o.H), val, false)
-			}
-			d.emit(fmt.Sprintf("DRemotePut %d %s %d %d", o.H, r.a.String(), r.pl, r.ep), "ROk")
+			d.remotePut(o.H, r)
 		case "rdel":
-			delete(d.st.data, keyOf(o.H))
+			delete(d.st.data, c.keyOf(o.H))
 			if d.st.cb != nil {
-				d.st.cb(keyOf(o.H), nil, true)
+				d.st.cb(c.keyOf(o.H), nil, true)
 			}
-			d.emit(fmt.Sprintf("DRemoteDel %d", o.H), "ROk")
+			d.emit("WRemoteDel "+vh.Str(c.keyOf(o.H)), "ROk")
 		case "echo": // late delivery of one pending own notification
 			if len(d.st.pending) == 0 {
 				continue
@@ -517,7 +538,15 @@ func runDist(c Case) vh.Case {
 		tl = append(tl, t)
 	}
 	sort.Strings(tl)
-	return vh.Case{Coq: "(" + cfg + ",\n " + vh.List(d.trace) + ")", Desc: c, Tags: tl}
+	var names []string
+	for h := 0; h < c.Univ; h++ {
+		names = append(names, fmt.Sprintf("(%d, %s)", h, vh.Str(c.name(h))))
+	}
+	wire := "(" + vh.Str(c.poolID()) + ", " + vh.List(names) + ")"
+	if len(c.Names) > 0 {
+		tl = append(tl, "ids:path-like")
+	}
+	return vh.Case{Coq: "(" + cfg + ", " + wire + ",\n " + vh.List(d.trace) + ")", Desc: c, Tags: tl}
 }
 
 // ------------------------------------------------------------------------------------ bitmap round trip
@@ -538,6 +567,15 @@ func outPrefix(p *net.IPNet) string {
 	return "OUnit " + intOf(p.IP).String()
 }
 
+// full result of a prefix-valued answer: address, mask ones, mask width (a nil mask reads 0/0)
+func pfxAns(p *net.IPNet) string {
+	if p == nil {
+		return "BOut ONone"
+	}
+	ones, bits := p.Mask.Size()
+	return fmt.Sprintf("BPfx %s %d %d", intOf(p.IP).String(), ones, bits)
+}
+
 func bitmapBattery(c Case) (coq string, ask func(a *allocator.IPAllocator) string) {
 	g := bigOf(c.Base)
 	step := new(big.Int).Lsh(big.NewInt(1), uint(c.Bits-c.PL))
@@ -552,7 +590,7 @@ func bitmapBattery(c Case) (coq string, ask func(a *allocator.IPAllocator) strin
 	var qs []q
 	for h := 0; h < c.Univ; h++ {
 		h := h
-		qs = append(qs, q{fmt.Sprintf("QLookup %d", h), func(a *allocator.IPAllocator) string { return outPrefix(a.Lookup(sub(h))) }})
+		qs = append(qs, q{fmt.Sprintf("QLookup %d", h), func(a *allocator.IPAllocator) string { return pfxAns(a.Lookup(sub(h))) }})
 	}
 	addrs := []*big.Int{}
 	for i := 0; i <= n; i++ { // one past the end included
@@ -569,21 +607,35 @@ func bitmapBattery(c Case) (coq string, ask func(a *allocator.IPAllocator) strin
 			qs = append(qs, q{fmt.Sprintf("QLookupUnit %s %d", a.String(), pl), func(al *allocator.IPAllocator) string {
 				s := al.LookupByPrefix(pfx())
 				if s == "" {
-					return "ONone"
+					return "BOut ONone"
 				}
-				return fmt.Sprintf("OHolder %d", subNum(s))
+				return fmt.Sprintf("BOut (OHolder %d)", subNum(s))
 			}})
 			qs = append(qs, q{fmt.Sprintf("QIsAlloc %s %d", a.String(), pl), func(al *allocator.IPAllocator) string {
-				if al.IsAllocated(pfx()) {
-					return "OOk"
-				}
-				return "ONone"
+				return "BFlag " + vh.Bool(al.IsAllocated(pfx()))
 			}})
 		}
 	}
 	qs = append(qs, q{"QStats", func(a *allocator.IPAllocator) string {
 		al, tot, u := a.Stats()
-		return statsCoq("OStats", al, tot, u)
+		return "BOut (" + statsCoq("OStats", al, tot, u) + ")"
+	}})
+	qs = append(qs, q{"QIsV6", func(a *allocator.IPAllocator) string { return "BFlag " + vh.Bool(a.IsIPv6()) }})
+	qs = append(qs, q{"QPrefixLen", func(a *allocator.IPAllocator) string { return fmt.Sprintf("BNum %d", a.PrefixLength()) }})
+	qs = append(qs, q{"QList", func(a *allocator.IPAllocator) string {
+		l := a.ListAllocations()
+		sort.Slice(l, func(i, j int) bool { return subNum(l[i].SubscriberID) < subNum(l[j].SubscriberID) })
+		var it []string
+		for _, x := range l {
+			ones, bits := 0, 0
+			ip := "0"
+			if x.Prefix != nil {
+				ones, bits = x.Prefix.Mask.Size()
+				ip = intOf(x.Prefix.IP).String()
+			}
+			it = append(it, fmt.Sprintf("(%d, (%s, %d, %d))", subNum(x.SubscriberID), ip, ones, bits))
+		}
+		return "BList " + vh.List(it)
 	}})
 	var names []string
 	for _, x := range qs {
